@@ -327,6 +327,10 @@ func main() {
 		roles(*out)
 	case "front":
 		front(*out)
+	case "waitfor":
+		waitfor(*out, *maxlen)
+	case "waitchild":
+		waitChild(*fm, *fshape)
 	case "fatalchild":
 		fatalChild(*fm, *fmin, *fshape)
 	}
